@@ -12,7 +12,7 @@ import gen_c03_progs as G
 LEVEL = 'proof'
 # same program shapes as the C03 differential (no `alloca` in inlinable functions: MIR_link's alloca hoisting is a
 # C04 finding that makes programs nondeterministic)
-FEATS = {'mem', 'switch', 'laddr', 'lref', 'indirect', 'reftab', 'inline', 'recursion', 'callback', 'ext_va'}
+FEATS = {'mem', 'switch', 'laddr', 'lref', 'indirect', 'reftab', 'inline', 'recursion', 'callback', 'ext_va', 'global', 'faddr'}
 PDIR = os.path.join(vlib.BUILD, 'c16p')
 
 
@@ -96,6 +96,10 @@ def gen_script(rng, prog):
     loaded = []
     iface_of = {}
     called = False
+    # a program without lref data may mix the engines freely: interpret a function (MIR_interp, or a call into a
+    # module linked with the interpreter interface) and generate it afterwards, interpret it again, ... --
+    # "any order ... each followed by interpretation"
+    free_mix = not any(f['lref'] for f in funcs)
     for gi, g in enumerate(groups):
         mods = ','.join(map(str, g))
         iface = rng.choice(['interp', 'interp', 'gen', 'lazy', 'lazy'])
@@ -108,8 +112,15 @@ def gen_script(rng, prog):
         callable_ = [e for e in ents if byname[e['name']] in loaded]
         for _ in range(rng.randint(1, 5)):
             r = rng.random()
-            cands = [f for f in loaded if not (called and iface_of[f['name']] == 'interp')]
-            if r < 0.45 and cands:
+            cands = [f for f in loaded if free_mix or not (called and iface_of[f['name']] == 'interp')]
+            if free_mix and r < 0.15 and callable_:
+                e = rng.choice([x for x in callable_ if x['kind'] != 'va'] or callable_)
+                if e['kind'] != 'va':
+                    c = G.gen_call(rng, e)
+                    ops += ['i' + c, 'snap']
+                    ref.append('i' + c)
+                    called = True
+            elif r < 0.45 and cands:
                 f = rng.choice(cands)
                 if rng.random() < 0.5:
                     ops.append('opt %d' % rng.choice([0, 1, 2, 3]))
@@ -138,7 +149,7 @@ def gen_script(rng, prog):
 
 
 SNAP_BAD = ('TEXT-CHANGED', 'INSNS-REPLACED', 'VARS-CHANGED', 'ORIGINAL-INSNS-LEFT', 'LREF-ORIG-LEFT', 'ADDR-CHANGED',
-            'MC-CHANGED', 'NO-CALL-ADDR', 'GEN-RETURNED-OTHER-ADDR', 'CRASH', 'ERROR', 'NOFUNC', 'BADOP')
+            'MC-CHANGED', 'NO-CALL-ADDR', 'GEN-RETURNED-OTHER-ADDR', 'INTERP-STATE-LOST', 'CRASH', 'ERROR', 'NOFUNC', 'BADOP')
 
 
 def parse_g(line):
@@ -154,8 +165,9 @@ def parse_g(line):
     return res, last, tail
 
 
-def run_g(impl, path, ops):
-    rc, out, err = vlib.run_lines(impl, ['G %s | %s' % (path, ' ; '.join(ops))], timeout=300)
+def run_g(impl, path, ops, poison=False):
+    env = dict(os.environ, C16_POISON='2') if poison else None
+    rc, out, err = vlib.run_lines(impl, ['G %s | %s' % (path, ' ; '.join(ops))], timeout=300, env=env)
     return ' '.join(' '.join(out).split())
 
 
@@ -173,9 +185,28 @@ def check_e2e(impl, path, ops, ref):
     if max_level(ops) >= 2 and 'CRASH:run' in o:
         return 'SKIP:optimised-code-crashed'
     if 'CRASH:gen:' in o:
-        # the code generator itself died while generating (C01's / C03's subject, reported there by death site):
-        # no generated function to look at
-        return 'SKIP:' + o[o.index('CRASH:gen:'):].split()[0]
+        # The code generator itself died while generating.  If it also dies generating that function on its own
+        # (fresh context, same modules, nothing else generated) at some level, it is a defect of the optimiser on
+        # that function (C01's / C03's subject, reported there by death site).  If the function can be generated
+        # on its own at every level, the death depends on what was generated before: "functions may be generated
+        # in any order" fails.
+        tok = o[o.index('CRASH:gen:'):].split()[0]
+        fn = tok.split(':')[2]
+        alone = [x if x.split()[0] == 'load' else 'link interp' for x in ops if x.split()[0] in ('load', 'link')]
+        dies_alone = False
+        # (with an allocator that never reuses and fills freed blocks: a use-after-free in the optimiser, whose
+        # symptom depends on the state of the heap and so on the history, shows on the function alone as well)
+        for lv in range(4):
+            for poison in (False, True):
+                a = run_g(impl, path, alone + ['opt %d' % lv, 'gen ' + fn, 'snap'], poison)
+                if 'CRASH' in a or 'ERROR' in a or 'NOFUNC' in a:
+                    dies_alone = True
+                    break
+            if dies_alone:
+                break
+        if dies_alone:
+            return 'SKIP:' + tok
+        return 'ORDER-DEPENDENT-GENERATOR-DEATH: %s is generated without trouble on its own at -O0..-O3, but the generator dies on it in this history: %s' % (fn, tok)
     for b in SNAP_BAD:
         if b in o:
             i = o.index(b)
@@ -240,8 +271,10 @@ def run(chk):
     nproto = 10 if quick else 30
     ne2e = 3 if quick else 6
     for k in range(nprog):
-        prog = G.gen_program(rng, feats=FEATS)
+        # one program in three has no lref data: its functions may be interpreted and generated in any order
+        prog = G.gen_program(rng, feats=FEATS - {'lref'} if k % 3 == 2 else FEATS)
         path = write_prog(prog['text'], 'p')
+        chk.dist('free_mix_program', not any(f['lref'] for f in prog['funcs']))
         for ft in prog['features']:
             chk.dist('prog_features', ft)
         # protocol tie on random functions of the program
@@ -268,6 +301,18 @@ def run(chk):
                             dict(kind='proto', text=prog['text'], func=f['name'], seed=seed, nedits=small, what=why),
                             'duplicate/edit/restore: %s  [function %s, seed %d, %d edits]' % (why[:300], f['name'], seed, small))
                 break
+        if k == 0:
+            # recorded limitation (KNOWN_FINDINGS c16:gen-after-lazybb): basic-block generation never restores the
+            # function's insns, so whole-function generation (or output / interpretation) after the function ran
+            # under the lazy-BB interface fails.  Witness history, reported under that signature only.
+            ent = [e for e in prog['entries'] if e['kind'] != 'va'][0]
+            allm = ','.join(str(i) for i in range(prog['nmodules']))
+            wops = ['load ' + allm, 'opt 1', 'link bb', 'snap', G.gen_call(rng, ent), 'gen ' + ent['name'], 'snap']
+            o = run_g(impl, path, wops)
+            chk.count(('G-bb', prog['text'], tuple(wops)), nontrivial=True)
+            if any(b in o for b in SNAP_BAD):
+                chk.finding('c16:gen-after-lazybb', dict(kind='e2e', text=prog['text'], ops=wops, ref=[], what=o[-300:]),
+                            'MIR_gen after the function ran under the lazy-BB interface: ' + o[-200:])
         # end to end
         for _ in range(ne2e):
             ops, ref = gen_script(rng, prog)
